@@ -104,7 +104,7 @@ TRUSTED = [
 ]
 ASSUMPTIONS = [
     "each session sends one command at a time (ABOR excepted); different sessions are fully concurrent",
-    "sessions work on disjoint pre-existing directories (the property's hypothesis, checked on every schedule by the model's run_in)",
+    "sessions work on disjoint pre-existing directories (the property's hypothesis, checked on every schedule by the model's run_in); two families go beyond it and are validated only: disjoint leaves under a common missing ancestor, and different entries of the same existing directory (siblings; Props/C17.v: C17_sibling_removals_commute covers the tree level)",
     "no connection limits among LIVE sessions (one family configures a limit of 1 that only a dead session could exhaust), port pool large enough, no server-wide / per-user speed limits (shared by design: C10, C11, C15); per-connection limits are configured in one family and assigned at run time on one session's own throttle in another",
     "lingering close: a transport closed with unsent data queued gets connection_lost only when the peer has taken the data or reset (asyncio selector transports with kernel buffers of size 0); asyncio.Server.wait_closed() waits for the accepted connections (CPython >= 3.12.1) - both modelled in the harness for the family after-unclean-death only",
 ]
@@ -182,6 +182,46 @@ DEEP_BODIES = {
     "deepmkd2": [("MKD", "inbox/{d}"), ("MKD", "inbox/{d}/q/r"), ("RNFR", "inbox/{d}/q"), ("RNTO", "inbox/{d}/q2"), ("MLST", "inbox/{d}/q2/r"), ("MKD", "/outbox/deep/{d}/k")],
     "deepmkd3": [("MKD", "/inbox/new/{d}"), ("CWD", "/inbox/new/{d}"), ("MKD", "m"), ("PWD", "")],
 }
+# DIFFERENT ENTRIES of the SAME directory /{d} (siblings; used by the family "siblings-in-shared-parent" only).  Role r owns the
+# pre-existing entries {file} / {dir} and every name that carries its number; nobody lists the shared directory
+SIB_ROLES = [{"file": "f", "dir": "e"}, {"file": "big", "dir": "sub/y"}]
+SIB_BODIES = {
+    "sibdel": [("DELE", "{file}"), ("MKD", "n{r}"), ("RMD", "{dir}"), ("RMD", "n{r}"), ("MLST", "n{r}")],
+    "sibmk": [("MKD", "m{r}"), ("MKD", "m{r}/k"), ("PASV", ""), (C, ""), ("STOR", "s{r}.bin", b"sib-{r}-{d}"), ("RNFR", "s{r}.bin"), ("RNTO", "t{r}.bin"),
+              ("RMD", "m{r}/k"), ("DELE", "t{r}.bin"), ("RMD", "m{r}"), ("DELE", "{file}")],
+    "sibren": [("RNFR", "{file}"), ("RNTO", "r{r}"), ("MKD", "q{r}"), ("RNFR", "{dir}"), ("RNTO", "d{r}"), ("DELE", "r{r}"), ("RMD", "q{r}"), ("RMD", "d{r}")],
+    "sibfirst": [("MKD", "w{r}"), ("PASV", ""), (C, ""), ("STOR", "v{r}", b"x{r}"), ("DELE", "v{r}"), ("RMD", "w{r}"), ("RMD", "{dir}"), ("DELE", "{file}")],
+}
+SIB_PATH_VERBS = ("DELE", "MKD", "RMD", "RNFR", "RNTO", "STOR", "MLST")
+SIB_GATED_VERBS = ("dele", "rmd", "rnto", "rnfr", "mkd", "stor")
+
+
+def make_sib_script(login, body, d, role, absolute=False):
+    """one session working on ITS entries of the shared directory /d (relative to CWD /d, or by absolute paths from the home)"""
+    sub = dict(SIB_ROLES[role], r=str(role), d=d)
+
+    def f(x):
+        for k, v in sub.items():
+            x = x.replace(("{" + k + "}").encode(), v.encode()) if isinstance(x, bytes) else x.replace("{" + k + "}", v)
+        return x
+
+    out = [{"k": "cmd", "verb": v, "arg": a} for v, a in LOGIN[login]]
+    if not absolute:
+        out.append({"k": "cmd", "verb": "CWD", "arg": "/" + d})
+    for e in SIB_BODIES[body]:
+        if e[0] == C:
+            out.append({"k": "conn"})
+            continue
+        arg = f(e[1])
+        if absolute and e[0] in SIB_PATH_VERBS:
+            arg = "/" + d + "/" + arg
+        a = {"k": "cmd", "verb": e[0], "arg": arg}
+        if len(e) > 2:
+            a["payload"] = f(e[2]).decode("latin-1")
+        out.append(a)
+    return out
+
+
 # bodies that make sense before "CWD /{d}" (absolute paths only)
 ABS_BODIES = ("abs",)
 TRANSFER_BODIES = ("store", "rest", "rest2", "type", "append", "nodata", "abor")
@@ -266,7 +306,9 @@ class Gate:
             what = self.canon(args[0]) if args else ""
         self.log.append((idx, op, what))
         a = self.armed.get(idx)
-        if a is not None and a[0] == op:
+        if a is not None and (a[0] == op or a[0] == "*"):
+            # "*": the n-th backend call made for this session from now on, WHATEVER method it is - including the calls a
+            # shipped backend method makes to its own overridable coroutine methods (self.is_file inside unlink, ...)
             a[1] -= 1
             if a[1] <= 0:
                 del self.armed[idx]
@@ -1013,6 +1055,7 @@ def _run_impl(n, schedule, cfg, align, budget):
                     assert g == ["220"], g
                 ss.append(s)
             steps = []
+            logpos = []
             writes = []
             alias, alias_cache = None, {}
             fp = server_fingerprint(server)
@@ -1030,6 +1073,7 @@ def _run_impl(n, schedule, cfg, align, budget):
                 before = [s.xprobe() for s in ss]
                 await ss[i].do(atom)
                 steps.append((before, [s.xprobe() for s in ss]))
+                logpos.append(len(gate.log))
                 if alias is None:
                     hit = aliasing(server, [(s.conn() if s.started and not s.dropped else None) for s in ss], alias_cache)
                     if hit is not None:
@@ -1064,6 +1108,7 @@ def _run_impl(n, schedule, cfg, align, budget):
                 own=own,
                 tree=tree,
                 log=list(gate.log),
+                logpos=logpos,
                 writes=writes,
                 starts=starts,
                 alias=alias,
@@ -1240,12 +1285,12 @@ def oracle(n, dirs, schedule, cfg, res, solos):
             bad.append(("c17-ended-differs-from-solo", f"session {i}: ended {me['ended']} solo {so['ended']}", {"session": i}))
         mine = [(op, w) for j, op, w in res["log"] if j == i]
         theirs = [(op, w) for j, op, w in solos[i]["log"]]
-        if mine != theirs and not bad and not cfg.get("merge"):
+        if mine != theirs and not bad and (not cfg.get("merge") or cfg.get("siblings")):
             # (with shared missing ancestors which backend calls a MKD makes may depend on who created the ancestor first)
             k = next((j for j, (x, y) in enumerate(zip(mine, theirs)) if x != y), min(len(mine), len(theirs)))
             bad.append(("c17-backend-calls-differ-from-solo", f"session {i}: backend call #{k} interleaved {mine[k:k+2]} solo {theirs[k:k+2]}", {"session": i}))
     # O5 footprint
-    for j, op, w in (res["log"] if not cfg.get("merge") else ()):
+    for j, op, w in (res["log"] if (not cfg.get("merge") or cfg.get("siblings")) else ()):
         if j is None:
             bad.append(("c17-backend-call-without-session", f"{op} {w}", {}))
             break
@@ -1752,6 +1797,78 @@ def gen_jobs(rng, thorough, budget=None):
             if nn == 3:
                 s += [(2, a) for a in scripts[2]]
         jobs.append(("shared-missing-ancestor", nn, ds, [project_atoms(s, i) for i in range(nn)], s, cfg))
+    # (8b) DIFFERENT ENTRIES of the SAME existing directory (siblings: earlier / later / adjacent positions, pre-existing and created in
+    # either order): DELE / RMD / RNFR+RNTO / MKD / STOR of one session suspended at its k-th BACKEND CALL - k counts every call that
+    # reaches an overridable coroutine method of the backend, also the ones a shipped backend method makes on `self` (is_file inside
+    # unlink, ...), for k = 1 .. number of calls the command makes on the tree under test (measured on a solo run) - while the other
+    # session runs a part or all of its script (or is suspended half-way too, completed in either order).  Outside the hypothesis of
+    # C17_isolation (the footprint of DELE / RMD / RNTO / STOR contains the PARENT, here the same directory for both: the model's
+    # directories are not incomparable), inside "disjoint paths".  Oracle: replies, reply instants, data and backend calls = solo,
+    # final tree = merge of the solo trees
+    sib_all = []
+    probe_ok = [True]
+
+    def calls_of(script, cfg):
+        """number of backend calls each atom of the script makes (solo, on the tree under test); None when it cannot be measured"""
+        if not probe_ok[0]:
+            return None
+        try:
+            r = solo(script, "", cfg)
+            lp = r.get("logpos")
+            if "frozen" in r or lp is None or len(lp) != len(script):
+                raise ValueError("no measure")
+            return [b - a for a, b in zip([0] + lp[:-1], lp)]
+        except Exception:
+            probe_ok[0] = False  # an observation for the other families; here: a fixed range of k
+            return None
+
+    sib_names = list(SIB_BODIES)
+    for ba, bb in itertools.product(sib_names, repeat=2):
+        for ra in (0, 1):
+            sib_all.append((ba, bb, ra))
+    rng.shuffle(sib_all)
+    sib_windows = []
+    for ba, bb, ra in sib_all:
+        d = rng.choice(DIRS)
+        la = rng.choice(["u", "v", "n", "anon"])
+        lb = la if rng.random() < 0.5 else rng.choice(["u", "v", "n", "anon"])
+        aa, ab = rng.random() < 0.25, rng.random() < 0.25
+        sa, sb = make_sib_script(la, ba, d, ra, aa), make_sib_script(lb, bb, d, 1 - ra, ab)
+        cfg = {"backend": rng.choice(["memory", "memory", "memory", "path", "async"]), "merge": True, "siblings": True}
+        cnt = calls_of(sa, {"backend": "memory", "merge": True, "siblings": True})
+        hb = len(LOGIN[lb]) + (0 if ab else 1)
+        for e, atom in enumerate(sa):
+            if atom["k"] != "cmd" or atom["verb"].lower() not in SIB_GATED_VERBS:
+                continue
+            kmax = max(2, cnt[e]) if cnt is not None else 5
+            for k in range(1, kmax + 1):
+                sib_windows.append((d, sa, sb, e, k, hb, cfg))
+        for kind in range(2):
+            m = merge_random(rng, [sa, sb]) if kind == 0 else burstify(merge_alternate([sa, sb]))
+            if thorough or rng.random() < 0.25:
+                jobs.append(("siblings-in-shared-parent", 2, [d, d], [sa, sb], m, cfg))
+    if not thorough:
+        sib_windows = rng.sample(sib_windows, min(len(sib_windows), 150 if budget else 110))
+    for d, sa, sb, e, k, hb, cfg in sib_windows:
+        mode = ("gate", ["*", k])
+        r = rng.random()
+        j0 = hb if r < 0.5 else (rng.randrange(hb, len(sb)) if r < 0.8 else 0)
+        pre = merge_random(rng, [sa[:e], sb[:j0]]) if rng.random() < 0.5 else [(1, b) for b in sb[:j0]] + [(0, a) for a in sa[:e]]
+        sched = list(pre) + [(0, dict(sa[e], k="send", mode=mode[0], marg=mode[1]))]
+        gb = [x for x in range(j0, len(sb)) if sb[x]["k"] == "cmd" and sb[x]["verb"].lower() in SIB_GATED_VERBS]
+        if gb and rng.random() < 0.3:
+            # B suspended half-way inside the window too; completed in either order
+            kb = rng.choice(gb)
+            sched += [(1, b) for b in sb[j0:kb]] + [(1, dict(sb[kb], k="send", mode="gate", marg=["*", rng.randrange(1, 5)]))]
+            fin = [(0, {"k": "collect"}), (1, {"k": "collect"})]
+            sched += fin if rng.random() < 0.5 else fin[::-1]
+            j1 = kb + 1
+        else:
+            j1 = len(sb) if rng.random() < 0.6 else rng.randrange(j0 + 1, len(sb) + 1)
+            sched += [(1, b) for b in sb[j0:j1]] + [(0, {"k": "collect"})]
+        rest = [sa[e + 1:], sb[j1:]]
+        sched += merge_random(rng, rest) if rng.random() < 0.5 else merge_alternate(rest)
+        jobs.append(("siblings-in-shared-parent", 2, [d, d], [project_atoms(sched, 0), project_atoms(sched, 1)], sched, cfg))
     # (9) an OPERATOR changes one session's own per-connection object at run time (`throttle.limit = n` on the session's
     # server_per_connection / user_per_connection throttle: public setter): every other session keeps its solo timing.  No limit
     # is configured at start (the default), so everything a session owns was built by the clone / from_limits factories of common.py
@@ -2053,7 +2170,7 @@ def check_case(ctx, fam, n, dirs, schedule, cfg, mo=None, verbose=False):
         # deliberately OUTSIDE the hypothesis of C17_isolation (no pre-existing directory of its own contains the session's
         # footprint: the only existing common ancestor is the root); the model's solo runs and its serialised tree are still
         # predictions of the model, the theorem just does not say they must agree
-        ctx.count("outside_theorem_hypothesis:shared_missing_ancestor")
+        ctx.count("outside_theorem_hypothesis:" + ("siblings_in_shared_parent" if cfg.get("siblings") else "shared_missing_ancestor"))
     elif not (all(hyp[0]) and hyp[1] and hyp[2]):
         ctx.count("model_outside_hypothesis")
         ctx.notes.append(f"schedule outside the model's hypothesis (generator): {fam} {dirs} {[verbs_of(s) for s in scripts]}"[:300])
@@ -2147,7 +2264,12 @@ def correspondence(ctx, budget=None):
         "reply instants of everybody vs time-aligned solo runs; (9) session A cut at every point (idle, listener open, idle data connection, "
         "mid-RETR/LIST/MLSD with unsent data queued, mid-upload) by reset / close / a vanished client host (control connection dies, data peer "
         "neither reads nor closes), then B connects or logs in under a per-user or server-wide connection limit of 1, with lingering close and "
-        "3.12 wait_closed semantics. After every step of every schedule the aliasing oracle walks what is reachable from each Connection. "
+        "3.12 wait_closed semantics; (10) two sessions on DIFFERENT ENTRIES of the SAME directory (siblings, pre-existing and created in either "
+        "order: earlier / later / adjacent positions): DELE / RMD / RNFR / RNTO / MKD / STOR of one session suspended at its k-th backend call "
+        "of ANY method (gate '*': also the calls a shipped backend method makes to its own overridable coroutine methods, k = 1 .. the number "
+        "of calls the command makes on the tree under test) while the other runs a part or all of its script or is suspended half-way too: "
+        "outside the theorem's hypothesis (the footprints share the parent), oracle = replies, data and backend calls as solo, final tree = "
+        "merge of the solo trees. After every step of every schedule the aliasing oracle walks what is reachable from each Connection. "
         "Non-trivial = distinct (schedule, configuration)."
     )
     jobs = gen_jobs(rng, thorough, budget)
